@@ -43,6 +43,7 @@ OBLIGATIONS = [
     "VgiVerif.C33.Loop.C33_loop_structure",
     "VgiVerif.C33.Loop.C33_shutdown",
     "VgiVerif.C33.Loop.C33_shutdown_step",
+    "VgiVerif.C33.Loop.C33_worker_lease",
     "VgiVerif.C33.Loop.C33_stop_only_by_check",
     "VgiVerif.C33.Loop.C33_shutdown_trace",
     "VgiVerif.C33.Launch.C33_launch_shape",
@@ -82,7 +83,8 @@ PARTIAL = [
 RULE = (
     "loop: hand-written + random client programs (1-3 clients: sleep / connect / hold / close; idle_timeout 2..8 quanta of "
     "1/8 s against the 4-quanta accept timeout; max_connections None/1; idle_timeout None with an external close), every "
-    "schedule with <= 2 (quick) / 3 (thorough) preemptions (capped) + PCT/random walks; launcher: 2-4 launcher threads over 1-2 "
+    "schedule with <= 2 (quick) / 3 (thorough) preemptions (capped) + PCT/random walks + the 'stall' family (one thread eager, then "
+    "starved, enumerated over thread and switch point); launcher: 2-4 launcher threads over 1-2 "
     "command hashes (cold start, reuse, worker idle-exit racing a launch, scripted spawn failure, zero lock timeout, explicit "
     "socket path), same exploration. A case is one (config, schedule); non-trivial when a connection was accepted by the loop "
     "resp. two launcher threads ran a launch"
@@ -105,6 +107,51 @@ MANIFEST = {
 Q = 0.125  # time quantum (seconds): every duration in a configuration is a multiple, exact in binary floating point
 QPS = 8
 STOP_AFTER = 12
+_GEN: dict[str, Any] = {"graceFloorSecs": 60, "acceptTimeoutMillis": 500}  # replaced by the extracted constants (check_meta)
+
+
+def grace_of(idle: int | None) -> int:
+    """`max(idle_timeout, <floor>)` in quanta, the floor taken from the extracted source"""
+    return max(idle or 0, _GEN["graceFloorSecs"] * QPS)
+
+
+class _StallChooser:
+    """Depth-2 schedule family (PCT with one change point, enumerated instead of sampled): thread `victim` runs eagerly
+    (it wins every contested choice) for its first `after` contested choices and is starved from then on (it only runs when
+    nothing else can); everybody else runs non-preemptively in thread-id order.  Finds the bugs that need ONE thread to be
+    delayed at ONE point (a fired timer callback, a worker between lstat and unlink, a launcher between open and flock)
+    without wading through the zero-preemption schedules first."""
+
+    def __init__(self, victim: int, after: int) -> None:
+        self.victim, self.after = victim, after
+        self.count = 0
+        self.log: list[tuple[tuple[int, ...], int | None, int]] = []
+        self.diverged = False
+
+    def choose(self, enabled: list[int], cur: int | None) -> int:
+        if self.victim in enabled and self.count < self.after:
+            c = self.victim
+        else:
+            cands = [t for t in enabled if t != self.victim] or list(enabled)
+            c = cur if (cur is not None and cur in cands) else cands[0]
+        if c == self.victim:
+            self.count += 1
+        self.log.append((tuple(enabled), cur, c))
+        return c
+
+
+def stall_runs(ds: DetSched, setup: Any, n: int) -> Any:
+    """Up to n runs of the stall family, (after, victim) in lexicographic order; replayable through `run.schedule`."""
+    runner = getattr(ds, "_run", None)
+    if runner is None:  # pragma: no cover - detsched internals changed: the sweep is skipped, explore() still runs
+        return
+    k = 0
+    for after in range(0, 64):
+        for victim in range(0, 8):
+            if k >= n:
+                return
+            k += 1
+            yield runner(setup, _StallChooser(victim, after), "stall")
 
 
 def units(x: float) -> int:
@@ -447,7 +494,7 @@ def worker_monitor(idle: int, grace: int, events: list[list[Any]]) -> dict[str, 
 def loop_judge(ctx: Any, cfg: dict[str, Any], run: Any, an: dict[str, Any], model: Any, mon: Any) -> None:
     case = {"part": "loop", "cfg": cfg, "schedule": list(run.schedule)}
     idle = cfg.get("idle")
-    grace = max(idle or 0, 60 * QPS)
+    grace = grace_of(idle)
     ctx.case(case, nontrivial=an["accepted"] >= 1, tags=(
         "k:loop", f"loop:{run.kind}", f"loop:pre{min(run.preemptions, 4)}", f"loop:idle{idle}",
         "loop:sem" if cfg.get("maxconn") is not None else "loop:nosem",
@@ -475,6 +522,9 @@ def loop_judge(ctx: Any, cfg: dict[str, Any], run: Any, an: dict[str, Any], mode
         ctx.fail(case, "C33:idle-exit-before-startup-grace",
                  f"the accept loop left before the start-up grace {grace} elapsed without any connection: events {an['events']}")
     # ---- K
+    lst = run.value
+    if lst is not None and (lst.timeout is None or round(lst.timeout * 1000) != _GEN["acceptTimeoutMillis"]):
+        ctx.mismatch(case, _GEN["acceptTimeoutMillis"], lst.timeout, "accept timeout: extracted constant vs what the loop set on the socket")
     if an["anomalies"]:
         ctx.mismatch(case, "modelled protocol of the accept loop", an["anomalies"],
                      "trace shape: the implementation no longer follows the modelled critical sections")
@@ -498,10 +548,10 @@ def loop_judge(ctx: Any, cfg: dict[str, Any], run: Any, an: dict[str, Any], mode
 
 def _loop_req(cfg: dict[str, Any], an: dict[str, Any]) -> dict[str, Any]:
     idle = cfg.get("idle")
-    return {"idle": idle, "grace": max(idle or 0, 60 * QPS), "maxConn": cfg.get("maxconn"), "events": an["labels"]}
+    return {"idle": idle, "grace": grace_of(idle), "maxConn": cfg.get("maxconn"), "events": an["labels"]}
 
 
-def explore_loop(ctx: Any, T: Any, cfg: dict[str, Any], dfs: int, bound: int, rnd: int) -> int:
+def explore_loop(ctx: Any, T: Any, cfg: dict[str, Any], dfs: int, bound: int, rnd: int, stall: int = 0) -> int:
     ds, setup = loop_sched(T, cfg)
     batch: list[tuple[Any, dict[str, Any]]] = []
     n = 0
@@ -514,14 +564,17 @@ def explore_loop(ctx: Any, T: Any, cfg: dict[str, Any], dfs: int, bound: int, rn
         if ctx.driver is not None:
             models = ctx.driver.batch([("C33.loopAccepts", _loop_req(cfg, an)) for _r, an in batch])
             idle = cfg.get("idle") or 0
-            mons = ctx.driver.batch([("C33.loopMonitor", {"idle": idle, "grace": max(idle, 60 * QPS), "events": an["events"]})
+            mons = ctx.driver.batch([("C33.loopMonitor", {"idle": idle, "grace": grace_of(idle), "events": an["events"]})
                                      for _r, an in batch])
         for (r, an), m, mo in zip(batch, models, mons):
             loop_judge(ctx, cfg, r, an, m, mo)
         batch.clear()
 
     with ds:
-        for run in ds.explore(setup, dfs=dfs, bound=bound, random=rnd, seed=f"{ctx.seed}:{ctx.evaluations}"):
+        import itertools
+
+        for run in itertools.chain(ds.explore(setup, dfs=dfs, bound=bound, random=rnd, seed=f"{ctx.seed}:{ctx.evaluations}"),
+                                   stall_runs(ds, setup, stall)):
             batch.append((run, loop_analyse(cfg, run)))
             n += 1
             if len(batch) >= 200:
@@ -557,8 +610,9 @@ LOOP_CORPUS: list[dict[str, Any]] = [
 # start-up grace (60 s = 480 quanta, 120 accept timeouts): long runs, few schedules
 LOOP_GRACE: list[dict[str, Any]] = [
     {"idle": 4, "clients": []},
-    {"idle": 4, "clients": [[["sleep", 480], ["connect"], ["close"]]]},
-    {"idle": 4, "clients": [[["sleep", 478], ["connect"], ["sleep", 3], ["close"]]]},
+    {"idle": 4, "clients": [[["sleep", 480], ["connect"], ["close"]]]},          # arrives exactly when the grace timer is due
+    {"idle": 4, "clients": [[["sleep", 478], ["connect"], ["sleep", 3], ["close"]]]},  # is being served when it is due
+    {"idle": 500, "clients": [[["sleep", 500], ["connect"], ["close"]]]},         # idle_timeout above the floor: grace = idle
 ]
 
 
@@ -1194,7 +1248,7 @@ def launch_judge(ctx: Any, cfg: dict[str, Any], run: Any, an: dict[str, Any], mo
             ctx.mismatch(case, mo, pm, "spec monitor: Lean Spec.LMon.run vs Python oracle")
 
 
-def explore_launch(ctx: Any, T: Any, L: Any, cfg: dict[str, Any], dfs: int, bound: int, rnd: int) -> int:
+def explore_launch(ctx: Any, T: Any, L: Any, cfg: dict[str, Any], dfs: int, bound: int, rnd: int, stall: int = 0) -> int:
     ds, setup = launch_sched(T, L, cfg)
     batch: list[tuple[Any, dict[str, Any]]] = []
     n = 0
@@ -1221,7 +1275,10 @@ def explore_launch(ctx: Any, T: Any, L: Any, cfg: dict[str, Any], dfs: int, boun
 
     try:
         with ds:
-            for run in ds.explore(setup, dfs=dfs, bound=bound, random=rnd, seed=f"{ctx.seed}:{ctx.evaluations}"):
+            import itertools
+
+            for run in itertools.chain(ds.explore(setup, dfs=dfs, bound=bound, random=rnd, seed=f"{ctx.seed}:{ctx.evaluations}"),
+                                       stall_runs(ds, setup, stall)):
                 batch.append((run, launch_analyse(cfg, run)))
                 n += 1
                 if len(batch) >= 200:
@@ -1290,14 +1347,16 @@ def check_meta(ctx: Any, T: Any, L: Any) -> None:
     if ctx.driver is None:
         return
     g = ctx.driver.call("C33.gen", {})
+    _GEN.update(graceFloorSecs=g["graceFloorSecs"], acceptTimeoutMillis=g["acceptTimeoutMillis"])
     if g["gcLimit"] != L._DEFAULT_GC_LIMIT:
         ctx.mismatch(case, g["gcLimit"], L._DEFAULT_GC_LIMIT, "_DEFAULT_GC_LIMIT: Gen vs module")
-    if g["acceptTimeoutMillis"] != 500 * units(0.5) // 4 or g["acceptTimeoutMillis"] % int(Q * 1000) != 0:
+    if g["acceptTimeoutMillis"] % int(Q * 1000) != 0:
         ctx.mismatch(case, g["acceptTimeoutMillis"], "multiple of the quantum", "accept timeout is not a multiple of the harness quantum")
-    for idle in (1, 8, 479, 480, 481, 4000):
+    floor = g["graceFloorSecs"] * QPS
+    for idle in (1, 8, floor - 1, floor, floor + 1, 10 * floor):
         m = ctx.driver.call("C33.grace", {"q": QPS, "idle": idle})
-        if m != units(max(idle * Q, float(g["graceFloorSecs"]))):
-            ctx.mismatch(case, m, units(max(idle * Q, 60.0)), "start-up grace: model vs max(idle_timeout, floor)")
+        if m != max(idle, floor):
+            ctx.mismatch(case, m, max(idle, floor), "start-up grace: model vs max(idle_timeout, floor)")
     shapes = {k: g[k] for k in ("sharedUnderLock", "loopShape", "handlerShape", "timerShape", "launchShape", "gcShape", "workerExitShape")}
     ctx.note("shape_facts", shapes)
     ctx.note("repair_shapes", {"clearsFlagOnAccept": g["clearsFlagOnAccept"], "callbackChecksCurrent": g["callbackChecksCurrent"],
@@ -1321,23 +1380,24 @@ def run(ctx: Any) -> None:
     check_meta(ctx, T, L)
     total_loop = total_launch = 0
     # ---- (b)
-    per = ctx.budget(110, 2500)
-    plan: list[tuple[dict[str, Any], int, int]] = [(dict(c, src="corpus"), per, per // 5) for c in LOOP_CORPUS]
-    plan += [(dict(c, src="grace"), ctx.budget(3, 40), ctx.budget(1, 20)) for c in LOOP_GRACE]
-    plan += [(gen_loop(rng), ctx.budget(60, 1200), ctx.budget(15, 300)) for _ in range(ctx.budget(4, 24))]
-    for cfg, dfs, rnd in plan:
-        total_loop += explore_loop(ctx, T, cfg, dfs, bound, rnd)
+    per = ctx.budget(45, 700)
+    plan: list[tuple[dict[str, Any], int, int, int]] = [
+        (dict(c, src="corpus"), per, per // 4, ctx.budget(32, 160)) for c in LOOP_CORPUS]
+    plan += [(dict(c, src="grace"), ctx.budget(6, 60), ctx.budget(2, 20), ctx.budget(8, 60)) for c in LOOP_GRACE]
+    plan += [(gen_loop(rng), ctx.budget(30, 350), ctx.budget(8, 90), ctx.budget(24, 80)) for _ in range(ctx.budget(3, 10))]
+    for cfg, dfs, rnd, stall in plan:
+        total_loop += explore_loop(ctx, T, cfg, dfs, bound, rnd, stall)
         if len(ctx.failures) >= STOP_AFTER:
             ctx.note("stopped_early", "accept loop: enough failing inputs found")
             break
     # ---- (a)
-    per = ctx.budget(90, 2500)
-    plan = [(dict(c, src="corpus"), per, per // 5) for c in LAUNCH_CORPUS]
-    plan += [(gen_launch(rng), ctx.budget(50, 1200), ctx.budget(12, 300)) for _ in range(ctx.budget(4, 24))]
-    for cfg, dfs, rnd in plan:
+    per = ctx.budget(60, 2000)
+    plan = [(dict(c, src="corpus"), per, per // 5, ctx.budget(32, 200)) for c in LAUNCH_CORPUS]
+    plan += [(gen_launch(rng), ctx.budget(40, 900), ctx.budget(10, 200), ctx.budget(24, 120)) for _ in range(ctx.budget(3, 20))]
+    for cfg, dfs, rnd, stall in plan:
         if len(ctx.failures) >= 3 * STOP_AFTER:
             break
-        total_launch += explore_launch(ctx, T, L, cfg, dfs, bound, rnd)
+        total_launch += explore_launch(ctx, T, L, cfg, dfs, bound, rnd, stall)
     ctx.note("traces_validated_against_impl", total_loop + total_launch)
     ctx.note("loop_traces", total_loop)
     ctx.note("launcher_traces", total_launch)
@@ -1358,7 +1418,7 @@ def replay(ctx: Any, case: dict[str, Any]) -> None:
         if ctx.driver is not None:
             model = ctx.driver.call("C33.loopAccepts", _loop_req(cfg, an))
             idle = cfg.get("idle") or 0
-            mon = ctx.driver.call("C33.loopMonitor", {"idle": idle, "grace": max(idle, 60 * QPS), "events": an["events"]})
+            mon = ctx.driver.call("C33.loopMonitor", {"idle": idle, "grace": grace_of(idle), "events": an["events"]})
         loop_judge(ctx, cfg, r, an, model, mon)
         return
     ds, setup = launch_sched(T, L, cfg)
